@@ -1,0 +1,62 @@
+//go:build verif
+// +build verif
+
+package mux
+
+// Contracts for ShardQueue (gocv). Comment-only file, build tag verif.
+
+// representation invariant established by NewShardQueue (size >= 1 is the documented usage)
+//@ pred sqok(q *ShardQueue) = q.size > 0 && len(q.getters) == q.size && len(q.locks) == q.size && len(q.list) == q.size
+//@     && 0 <= q.w && q.w < q.size && 0 <= q.r && q.r < q.size && q.conn != nil
+//@     && (forall i int :: 0 <= i && i < len(q.list) ==> 0 <= q.list[i] && q.list[i] < q.size)
+
+// number of getters invoked so far by the running deal (ghost)
+//@ ghost global dealn int
+
+//@ functype mux.WriterGetter
+//@   results buf isNil
+//@   note a getter returns a writer or isNil; it does not touch the queue
+
+//@ iface Connection.IsActive
+//@   results ok
+//@ iface Connection.Writer
+//@   results w
+//@   ensures w != nil
+//@ iface Connection.Close
+//@   results err
+//@ iface Writer.Append
+//@   params w
+//@   results err
+
+//@ func (*mux.ShardQueue).lock
+//@   property C17
+//@   requires 0 <= shard && shard < len(q.locks)
+//@   modifies q.locks[shard]
+//@   loop 1 invariant true
+//@
+//@ func (*mux.ShardQueue).unlock
+//@   property C17
+//@   requires 0 <= shard && shard < len(q.locks)
+//@   modifies q.locks[shard]
+
+//@ func (*mux.ShardQueue).Add
+//@   property C17
+//@   requires sqok(q)
+//@   ensures sqok(q)
+//@   ensures old(q.state) != 0 ==> unchanged(ShardQueue.idx, ShardQueue.getters)
+//@   modifies anything
+
+//@ func (*mux.ShardQueue).triggering
+//@   property C17
+//@   requires sqok(q) && 0 <= shard && shard < q.size
+//@   ensures sqok(q)
+//@   modifies anything
+
+//@ func (*mux.ShardQueue).deal
+//@   property C17
+//@   requires q.conn != nil && dealn == 0
+//@   assume forall k int :: 0 <= k && k < len(gts) ==> gts[k]#id != 0
+//@   ensures 0 <= dealn && dealn <= len(gts)
+//@   modifies dealn
+//@   ghost before call dyn#1: assert callee#id == gts[dealn]#id; dealn = dealn + 1
+//@   loop 1 invariant dealn == rangeindex + 1 && -1 <= rangeindex && rangeindex < len(gts)
